@@ -95,6 +95,19 @@ pub struct World {
     pub keep_log: bool,
     pub teardown: bool,
     pub log_hash: vh_common::Hasher,
+    /// systematic enumeration of callback outcomes for one task (C04)
+    pub dfs: Option<Dfs>,
+}
+
+/// Depth-first enumeration state: the decisions of `task` follow `prefix`,
+/// then default to 0; every decision taken is recorded with its arity.
+pub struct Dfs {
+    pub task: usize,
+    pub prefix: Vec<u8>,
+    pub taken: Vec<(u8, u8)>,
+    /// gates opened for the task: true = the director shall abandon the task there
+    pub abandon_at_gate: bool,
+    pub suspend_ok: bool,
 }
 
 impl World {
@@ -134,6 +147,7 @@ impl World {
             keep_log: true,
             teardown: false,
             log_hash: Default::default(),
+            dfs: None,
         }
     }
 
@@ -466,7 +480,34 @@ impl World {
         if self.probe_mode {
             return Plan::Now(Outcome::Ok);
         }
-        let s = if let Some(s) = self.tasks[t].script.pop_front() {
+        let dfs_choice = match &mut self.dfs {
+            Some(d) if d.task == t => {
+                let arity: u8 = if is_async { 4 } else { 3 };
+                let c = d.prefix.get(d.taken.len()).copied().unwrap_or(0).min(arity - 1);
+                d.taken.push((c, arity));
+                Some(match c {
+                    0 => {
+                        // alternate between immediate and suspended success so both paths are driven
+                        if is_async && d.suspend_ok && d.taken.len() % 2 == 0 {
+                            d.abandon_at_gate = false;
+                            Script::Gate
+                        } else {
+                            Script::Ok
+                        }
+                    }
+                    1 => Script::Err,
+                    2 => Script::Panic,
+                    _ => {
+                        d.abandon_at_gate = true;
+                        Script::Gate
+                    }
+                })
+            }
+            _ => None,
+        };
+        let s = if let Some(s) = dfs_choice {
+            s
+        } else if let Some(s) = self.tasks[t].script.pop_front() {
             s
         } else {
             let x = self.rng.below(100) as u32;
